@@ -4,7 +4,7 @@ import multiprocessing
 import os
 
 from vlib import core
-from harness import c18_crash, c18_resume
+from harness import c18_crash, c18_options, c18_resume
 
 PROP = 'C18'
 MODEL_MODULES = ['TenpyModel.Util.J', 'TenpyModel.C18.FS', 'TenpyModel.C18.Loop']
@@ -32,7 +32,14 @@ RULE = ('crash: real Simulation.save_results (pickle and HDF5, safe_write on) of
         'the convergence-controlled class; the file of every '
         'checkpoint is copied aside and the run resumed from each (plus one interruption through a real SIGINT); '
         'results dictionaries are diffed against the plain run and the measurement bookkeeping (indices, loop-counter '
-        'tags, which step errors are in each eps_error) against the Lean loop machine. Non-trivial: a truncation '
+        'tags, which step errors are in each eps_error) against the Lean loop machine; resume variants: measure_initial '
+        'off, measurements at checkpoints on/off, final_time not a multiple of the step, group_sites, time-dependent H '
+        'engines, QR-TEBD, custom measurement lists (priorities, psi_method/simulation_method wraps, late/missing keys, '
+        'returned values, gzip pickle, random_seed), no measurements entry in the checkpoint, disk cache, save_psi off with '
+        'save_resume_data on, post-processing. options: 18 contract scenarios (file naming and existing files, skip/overwrite, '
+        'endings, directory, save_every_x_seconds, entry points and their argument errors, abort signals, RAM estimate, '
+        'listener priorities, failing measurements / post-processing, sequential simulations incl. resume of the '
+        'sequence) and overwrite_output over a prefilled directory under the fault injector. Non-trivial: a truncation '
         'error > 1e-14 had accumulated before the checkpoint (time evolution) / any DMRG checkpoint.')
 TRUSTED = ['Lean 4.33 kernel; axioms of every C18_* theorem ⊆ {propext, Classical.choice, Quot.sound}',
            'hand-written models TenpyModel/C18/{FS,Loop}.lean, tied to tenpy/simulations/simulation.py, '
@@ -50,6 +57,12 @@ ASSUMPTIONS = ['a process crash = no further file-system step of that process is
                'the user resumes from the newest file that loads (output file first, then backup)']
 
 SEARCH_SEEDS = 3
+ANCHOR_COVERAGE_NOTE = ('coverage round 2026-09-26 (quick-tier streams run in-process under coverage --branch, seed 0): '
+                        'simulation.py 56% -> 94% (647 stmts, 248 -> 22 missed), algorithm.py 44% -> 84%, '
+                        'GroundStateSearch and RealTimeEvolution classes 100% of their lines (the files as a whole 9% / 18%: '
+                        'excitation / spectral-function simulation classes are not exercised), mps_common.py 55% (resume parts '
+                        'get_resume_data/reset_stats covered except orthogonal_to), hdf5_io.py 60% -> 62% (save/load dispatch '
+                        'incl. pklz, hdf5 and unknown endings covered; the rest belongs to C17); see notes/C18.md')
 
 
 def _pool():
@@ -87,6 +100,11 @@ def _run_corpus(ctx, res, pool, use_model=True):
             c18_crash.replay_case(ctx, res, case, use_model=use_model)
         elif case.get('part') == 'resume':
             resume_jobs.append(_resume_job(case))
+        elif case.get('part') == 'options':
+            for r in pool.map(c18_options.run_scenario, [(case['scenario'], case['seed'])]):
+                res.note_case(case, nontrivial=True)
+                for suffix, detail in r['problems']:
+                    res.fail('property', 'options.%s.%s' % (r['name'][2:], suffix), detail, case)
     if resume_jobs:
         results = pool.map(c18_resume.run_job, resume_jobs, chunksize=1)
         c18_resume.evaluate(ctx, res, results, use_model=use_model)
@@ -113,6 +131,8 @@ def run(ctx):
         _run_corpus(ctx, res, pool)
         c18_crash.run(ctx, res, use_model=True, pool=pool)
         c18_resume.run(ctx, res, pool, use_model=True)
+        c18_options.run(ctx, res, pool)
+        res.extra['anchor_coverage_note'] = ANCHOR_COVERAGE_NOTE
     finally:
         pool.close()
         pool.join()
@@ -129,6 +149,7 @@ def search(ctx, reasons):
             sub = core.Ctx(PROP, ctx.tier, ctx.seed * 1000 + 17 + i, ctx.budget_s)
             c18_crash.run(sub, res, use_model=False, pool=pool)
             c18_resume.run(sub, res, pool, use_model=False)
+            c18_options.run(sub, res, pool)
             if any(f.kind == 'property' for f in res.failures) and i >= 1:
                 break
     finally:
@@ -143,6 +164,28 @@ def replay(ctx, payload):
     case = payload.get('case', {})
     if case.get('part') in ('crash', 'second-crash'):
         c18_crash.replay_case(ctx, res, case)
+    elif case.get('part') == 'options':
+        pool = _pool()
+        try:
+            for r in pool.map(c18_options.run_scenario, [(case['scenario'], case['seed'])]):
+                res.note_case(case, nontrivial=True)
+                for suffix, detail in r['problems']:
+                    res.fail('property', 'options.%s.%s' % (r['name'][2:], suffix), detail, case)
+        finally:
+            pool.close()
+            pool.join()
+    elif case.get('part') == 'prefilled':
+        import random
+        import shutil
+        import tempfile
+        pool = _pool()
+        base = tempfile.mkdtemp(prefix='verif-c18-')
+        try:
+            c18_crash.check_prefilled(ctx, res, pool, base, case['fmt'], random.Random(str(case)), use_model=True)
+        finally:
+            pool.close()
+            pool.join()
+            shutil.rmtree(base, ignore_errors=True)
     elif case.get('part') == 'resume':
         pool = _pool()
         try:
